@@ -22,6 +22,8 @@ text are the logged edits:
   R11 `for` loop desugared into `loop { match it.next() .. }` (Rust reference), enumerate counter explicit
   R9  locspan `Meta::map(f)` inlined (`Meta(f(self.0), self.1)`) and beta-reduced
   R14 implicit drop of a named local at the end of a fn body made explicit (tail bound, `x.drop()`)
+  R15 an expression wrapped in a block that binds its value to a local and yields it (so that a proof
+      hint can name it)
 
 Anything else that cannot be handled raises ExtractError (driver exit 2); the
 extractor never edits code to make it fit.
@@ -1086,11 +1088,20 @@ def rule_R7(ed, src, parts, ordinal, params, text):
     if ordinal > len(hits):
         raise ExtractError("lost anchor: closure #%d not found (%s:%d)" % (ordinal, src.rel, src.line_of(toks[bo].start)))
     b1, b2 = hits[ordinal - 1]
+    destructure = ""
     if params is not None:
-        ed.replace(toks[b1].start, toks[b2].end, "|%s|" % params, "R7", "closure parameter types made explicit")
+        mt = re.match(r"\s*(\(.*\))\s*:\s*(.*)$", params)
+        if mt:
+            # a tuple PATTERN as the parameter (Verus takes variables only): the parameter becomes a
+            # variable and the pattern is bound from it by a `let` first in the body
+            destructure = "let %s = verif_p; " % mt.group(1)
+            params = "verif_p: %s" % mt.group(2)
+        ed.replace(toks[b1].start, toks[b2].end, "|%s|" % params, "R7", "closure parameter types made explicit" + (" (tuple pattern bound by a let in the body)" if destructure else ""))
     body_lo = _next_sig(toks, b2 + 1, bc)
     if toks[body_lo].text == "{":
         ed.insert(toks[body_lo].start, " " + text.strip() + " ", "A")
+        if destructure:
+            ed.insert(toks[body_lo].end, " " + destructure, "R7", "tuple pattern of the closure parameter bound by a let")
     else:
         # body extends to the end of the enclosing call argument / statement
         depth = 0
@@ -1110,7 +1121,7 @@ def rule_R7(ed, src, parts, ordinal, params, text):
         j = k - 1
         while toks[j].kind in ("ws", "comment"):
             j -= 1
-        ed.insert(toks[body_lo].start, " " + text.strip() + " { ", "R7", "closure body wrapped in a block")
+        ed.insert(toks[body_lo].start, " " + text.strip() + " { " + destructure, "R7", "closure body wrapped in a block")
         ed.insert(toks[j].end, " }", "R7", "closure body wrapped in a block")
 
 
@@ -1605,6 +1616,21 @@ class Unit:
                 if not m:
                     raise ExtractError("%s: bad //@closure argument" % label)
                 rule_R7(ed, src, parts, int(m.group(1)), m.group(2), text)
+            elif name == "wrap":
+                # R15: the K-th occurrence of an expression (a token sequence) is wrapped in a block that
+                # binds its value to a local and yields it -- `{ let mut NAME = EXPR; <proof text> NAME }`
+                # -- so that a proof hint can name the value (an iterator adapter's `remaining()`)
+                m = re.match(r"(\d+)\s+`(.*)`\s+(\w+)\s*$", arg)
+                if not m:
+                    raise ExtractError("%s: bad //@wrap argument `%s`" % (label, arg))
+                kth, pat, nm = int(m.group(1)), m.group(2), m.group(3)
+                bo, bc = parts["body"]
+                occ = find_token_seq(src, bo + 1, bc, pat)
+                if kth > len(occ):
+                    raise ExtractError("lost anchor: expression `%s` #%d not found in %s" % (pat, kth, label))
+                k0, k1 = occ[kth - 1]
+                ed.insert(toks[k0].start, "{ let mut %s = " % nm, "R15", "expression bound to a local inside a block that yields it")
+                ed.insert(toks[k1].end, ";\n" + text + "\n" + nm + " }", "R15", "expression bound to a local inside a block that yields it")
             elif name in ("subst", "nospinoff", "r4inv", "r4body", "r4after", "r14after", "r14before", "loopkey", "optional", "modelled"):
                 pass
             elif name == "pubfields":
